@@ -21,7 +21,7 @@ ASSUMPTIONS = ["feature lists of body symbols are rendered without blanks, as th
                "atom-against-complex conflicts (inconsistent typing) are not generated"]
 TIERS = {
     "quick": {"workers": 4, "unify": 1200, "fcfg": 220},
-    "thorough": {"workers": 16, "unify": 15000, "fcfg": 2500, "pytest": True, "hard_timeout": 3300},
+    "thorough": {"workers": 16, "unify": 8000, "fcfg": 1000, "pytest": True, "hard_timeout": 3300},
 }
 MIN = {"quick": {"C18.FeatureStructure.unify": 5000, "C18.FCFG.contains": 10000},
        "thorough": {"C18.FeatureStructure.unify": 100000, "C18.FCFG.contains": 200000}}
@@ -145,7 +145,36 @@ def fcfg_ref(g):
             for v in sl.values():
                 if v[0] == "atom":
                     atoms.add(v[1])
+    close_paths(prods)
     return prods, (g.start_symbol.value if g.start_symbol is not None else None), atoms
+
+
+class InconsistentTyping(Exception):
+    """a path is atomic in one place and complex in another: outside the property's quantifier"""
+
+
+def close_paths(prods):
+    """a variable standing at a path that is complex elsewhere in the grammar stands for a whole sub-structure:
+    it is expanded to every leaf path below it, sharing one variable per (variable, suffix) (DESIGN.md E.4)"""
+    occs = []
+    for h, hs, body in prods:
+        occs.append(hs)
+        occs.extend(x[2] for x in body if x[0] == "V")
+    paths = set()
+    for sl in occs:
+        paths |= set(sl)
+    for sl in occs:
+        for q in list(sl):
+            ext = [p for p in paths if len(p) > len(q) and p[:len(q)] == q]
+            if not ext:
+                continue
+            v = sl.pop(q)
+            if v[0] == "atom":
+                raise InconsistentTyping()
+            # only the leaf paths below q
+            for p in ext:
+                if not any(len(p2) > len(p) and p2[:len(p)] == p for p2 in paths):
+                    sl.setdefault(p, ("var", (v[1], p[len(q):])))
 
 
 def grammar_tags(prods):
@@ -158,7 +187,11 @@ def grammar_tags(prods):
 
 
 def pre_contains(self, args, kwargs):
-    prods, start, atoms = fcfg_ref(self)
+    try:
+        prods, start, atoms = fcfg_ref(self)
+    except InconsistentTyping:
+        core.LOG.discard("fcfg_inconsistently_typed")
+        return None
     domain = sorted(atoms, key=repr) or ["x"]
     if start is None:
         return None
